@@ -192,7 +192,7 @@ func c13Run(t *testing.T, p c13Plan) (res vfResult) {
 		to.ForwardHeaders = p.Forward
 		to.BufferRequests, to.BufferResponses = p.BufReq, p.BufResp
 		to.MaxMemoryBufferSize = 1024
-		if err := r.DeployService("svc", []string{"raw0:80"}, opts, to, 5*time.Second, time.Second); err != nil {
+		if err := vfDeploy(r, "svc", []string{"raw0:80"}, opts, to, 5*time.Second, time.Second); err != nil {
 			res.failf("setup-failed", "deploy: %v", err)
 			return
 		}
@@ -207,8 +207,7 @@ func c13Run(t *testing.T, p c13Plan) (res vfResult) {
 				}
 			}
 		}
-		h := NewServer(&Config{HttpPort: 80, HttpsPort: 443}, r).buildHandler()
-		f := w.front(h, "front:80")
+		f := w.front(r, "front:80")
 
 		// ---- the response the target will send
 		rbody := c13Body(p.RBodyLen, 3)
